@@ -41,7 +41,7 @@ def main():
         rows.append("| %s | %s | %s | %s | %s | %s |" % (
             sid, s.get("change", ""), s.get("needs", ""),
             {1: "detected", 0: "missed", None: "-"}.get(r1, "exit %s" % r1),
-            {1: "detected", 0: "MISSED", None: "(not re-run)"}.get(last, "exit %s" % last),
+            {1: "detected", 0: "MISSED", None: ("detected (first evaluation, not re-run)" if r1 == 1 else "(not re-run)")}.get(last, "exit %s" % last),
             s.get("by", "")))
     print("| id | the change | what it needs to manifest | first evaluation | after strengthening (final tree) | what catches it |")
     print("|---|---|---|---|---|---|")
